@@ -56,7 +56,7 @@ type EmbPtr struct { // embedded pointer to a struct with tagged fields (nil or 
 }
 type EmbVal struct {
 	TagInner
-	Y int `pickle:"y"`
+	Y int     `pickle:"y"`
 	Z *EmbPtr `pickle:"z"`
 }
 type PtrChain struct {
